@@ -153,7 +153,12 @@ func ruleChainStopsAtFork(c *core.Ctx, rule string) {
 			}
 		}
 		terms := x.Run(x.NewState(fn, nil, nil))
-		if len(x.Problems) > 0 || x.Exhausted {
+		if x.Exhausted {
+			// an exploration that ran out of budget decides nothing: said aloud, not passed over
+			account(c, x, rule, fn)
+			continue
+		}
+		if len(x.Problems) > 0 {
 			continue // the traversal rule reports what it cannot follow
 		}
 		var bad []string
@@ -359,6 +364,20 @@ func ruleTreePrinters(c *core.Ctx, rule string) {
 					}
 					if strings.HasPrefix(atom, "b(§"+modeName) && len(outs) == 1 {
 						s.SetData("mode", outs[0])
+					}
+					// the switch as the one boolean field of an options structure handed down the recursion
+					if strings.HasPrefix(atom, "b(field(§"+modeName+",") && len(outs) == 1 {
+						if st, ok := fn.Params[len(fn.Params)-1].Type().Underlying().(*types.Struct); ok {
+							bools := 0
+							for i := 0; i < st.NumFields(); i++ {
+								if bt, isB := st.Field(i).Type().Underlying().(*types.Basic); isB && bt.Kind() == types.Bool {
+									bools++
+								}
+							}
+							if bools == 1 {
+								s.SetData("mode", outs[0])
+							}
+						}
 					}
 					// the mode as an enumeration made from the switch by one function of the package (newLastLevel(bool))
 					if modeEnum != nil && strings.HasPrefix(atom, "ord(") && strings.Contains(atom, "§"+modeName) && !strings.Contains(atom, "len(") {
